@@ -235,6 +235,93 @@ def run(chk):
     chk.ob("C13.R5:file-record", "the file writer opens and closes each fixed field with the same label, inside one record", file_record)
 
 
+    # ---- R5: a property that fails to stream must fail the record, not be closed over ------------------------------------
+    ERR_DOC = ("where a sink enumerates properties into an open sval structure and the per-property closure stops early (Break) on a stream "
+               "error, the enclosing function does not go on to close the structure as if it were complete: the enumeration's ControlFlow is "
+               "inspected, or the closure parks the error in a captured slot that is ?-checked before the closing call")
+    CLOSERS = re.compile(r"^(record|seq|map|tuple|record_tuple|enum|tagged)_end$")
+
+    def enumeration_sites():
+        out = []
+        for b in bodies:
+            if b.crate not in ("emit_file", "emit_otlp", "emit_term") or "generated" in b.file:
+                continue
+            for fe in [c for c in b.calls(normal_only=True) if c.callee.get("name") == "for_each" and len(c.args) >= 2]:
+                cl = mir.o_root(b.origin(fe.args[1]))
+                if not (cl[0] == "agg" and cl[1].get("def")):
+                    continue
+                cb = P.bodies.get(cl[1]["def"])
+                if cb is None:
+                    continue
+                inner = [cb] + P.closures_of(cb)
+                breaks = [bb for bb, j, st in cb.statements(normal_only=True)
+                          if st["k"] == "assign" and st["rv"]["k"] == "agg" and st["rv"].get("variant") == "Break"
+                          and (st["rv"].get("adt") or "").endswith("ControlFlow")]
+                # does an error feed the early exit?  (a Result is produced somewhere in the closure)
+                fallible = [c for x in inner for c in x.calls(normal_only=True) if c.dest is not None and "p" not in c.dest
+                            and re.match(r"(core::result::)?Result<", x.local_ty(c.dest["l"]))]
+                if not breaks or not fallible:
+                    continue
+                after = b.reachable_from(fe.bb)
+                closers = [c for c in b.calls(normal_only=True) if CLOSERS.match(c.callee.get("name") or "") and c.bb in after and c.bb != fe.bb]
+                if closers:
+                    out.append((b, fe, cb, closers))
+        return out
+
+    def error_reaches_caller(b, fe, cb, closers):
+        if common.result_checked(b, fe):
+            return True, "%s: the enumeration's ControlFlow is inspected before %s" % (fe.loc, closers[0].callee.get("name"))
+        clos_def = [st2 for bb2, j2, st2 in b.statements(normal_only=True)
+                    if st2["k"] == "assign" and st2["rv"]["k"] == "agg" and st2["rv"].get("def") == cb.key]
+        for st_bb, j, st in cb.statements(normal_only=True):
+            pl = st["place"] if st["k"] == "assign" else None
+            if not pl or pl["l"] != 1 or not pl.get("p"):
+                continue
+            fld = [x["f"] for x in pl["p"] if isinstance(x, dict) and "f" in x][:1]
+            if not fld or st["rv"]["k"] != "use":
+                continue
+            val = cb.origin(st["rv"]["op"])
+            if not (val[0] == "agg" and val[1].get("variant") == "Err"):
+                continue
+            slot = None   # the parent local the capture borrows
+            for st2 in clos_def:
+                ops = st2["rv"].get("ops") or []
+                if fld[0] < len(ops):
+                    l = mir.Body._op_local(ops[fld[0]])
+                    for bb3, j3, st3 in b.statements(normal_only=True):
+                        if st3["k"] == "assign" and "p" not in st3["place"] and st3["place"]["l"] == l and st3["rv"]["k"] == "ref" \
+                                and "p" not in st3["rv"]["place"]:
+                            slot = st3["rv"]["place"]["l"]
+            if slot is None:
+                continue
+            al = set(b.value_aliases(slot)) | {slot}
+            tests_bb = {c.bb for c in b.calls(normal_only=True) if c.callee.get("name") == "branch" and c.args
+                        and mir.Body._op_local(c.args[0]) in al}
+            for i2, t in b.switches():
+                so = b.switch_origin(i2)
+                if so[0] == "discr" and so[1][0] == "local" and so[1][1] in al:
+                    tests_bb.add(i2)
+            if tests_bb and all(b.must_pass(list(tests_bb), start=fe.bb, ends=[c.bb]) for c in closers):
+                return True, "%s: the closure parks its error in a captured slot that is checked before %s" % (fe.loc, closers[0].callee.get("name"))
+        return False, None
+
+    try:
+        esites = enumeration_sites()
+    except mir.AnchorMissing:
+        esites = []
+    chk.floor("property enumerations into an open sval structure in the sinks", len(esites), 2)
+    for (b, fe, cb, closers) in esites:
+        def f(b=b, fe=fe, cb=cb, closers=closers):
+            ok, how = error_reaches_caller(b, fe, cb, closers)
+            if ok:
+                return True, "", [how]
+            c = closers[0]
+            return False, ("%s stops enumerating properties when one fails to stream (the closure at %s breaks on Err) but discards that fact and "
+                           "goes on to %s at %s: the output keeps the half-written property, is closed as if complete and reported as success"
+                           % (b.key, fe.loc, c.callee.get("name"), c.loc)), [fe.loc, c.loc], fe.loc
+        chk.ob("C13.R5.errors:%s" % re.sub(r"<'[a-z_]+(, [A-Z])*>|<[A-Z]>", "", b.key), ERR_DOC, f)
+
+
     # ---- R5: the "needs no escaping" hint is only ever put on constant identifier labels ------------------------------
     def ident_tags():
         n = 0
